@@ -323,7 +323,11 @@ def run_rr(spec, res):
             parts = gen_parts(rng)
             if len(parts) > 40:
                 parts = parts[:40]
-            rr = P.RoundRobinPartitioner("t", list(parts))
+            # the caller may keep ONE list object for the topic, hand that very object to every call and update it in
+            # place when the topic changes (what the partitioner remembers must not alias it), or pass a fresh list
+            # every time
+            shared = list(parts) if rng.random() < 0.4 else None
+            rr = P.RoundRobinPartitioner("t", shared if shared is not None else list(parts))
             runs = []
             cur = (list(parts), [])
             hist = [("init", list(parts), random_start)]
@@ -337,18 +341,25 @@ def run_rr(spec, res):
                             else parts[:-1]
                     if newp != parts:
                         parts = newp
+                        if shared is not None:
+                            shared[:] = parts
                         runs.append(cur)
                         cur = (list(parts), [])
                         changes += 1
                         hist.append(("change", list(parts)))
                 try:
-                    got = rr.partition(rng.choice((None, b"k", b"")), list(parts))
+                    got = rr.partition(rng.choice((None, b"k", b"")), shared if shared is not None else list(parts))
                 except Exception as e:
                     res.violate("rr-raised/%s" % type(e).__name__, "RoundRobinPartitioner.partition() raised %r after the "
                                 "list changed to %r" % (e, parts[:12]), history=hist[-4:])
                     break
                 cur[1].append(got)
             runs.append(cur)
+            if shared is not None:
+                res.hit("rr_histories_one_list_object")
+                if shared != parts:
+                    res.violate("rr-mutated-callers-list", "the caller's partition list was modified by the partitioner",
+                                want=parts[:12], got=shared[:12])
             res.hit("rr_histories")
             res.hit("rr_list_changes", changes)
             if random_start:
